@@ -221,6 +221,22 @@ void run_case(char *rest)
 			else putchar('-');
 			if (o) json_object_put(o);
 			break; }
+		case 'Y': {
+			/* an invalid length argument: Y<len> with len < -1 — refused with the size error before anything is read;
+			 * the calling thread's locale is what it was (loc1) and nothing is kept (the LEAK check at the end) */
+			int len = atoi(tokp + 1);
+			locale_t before = uselocale((locale_t)0), after;
+			struct json_object *o; enum json_tokener_error e;
+			if (dead) { printf("skipped"); break; }
+			o = json_tokener_parse_ex(tok, "[1]", len);
+			e = json_tokener_get_error(tok);
+			after = uselocale((locale_t)0);
+			dead = (e != json_tokener_success && e != json_tokener_continue);
+			printf("%s %zu %s", err_name(e), json_tokener_get_parse_end(tok), o ? "VALUE-WITH-ERROR" : "-");
+			printf(" loc%d", before == after);
+			if (before != after) uselocale(before);
+			if (o) json_object_put(o);
+			break; }
 		case 'R': json_tokener_reset(tok); dead = 0; printf("reset"); break;
 		case 'M': /* fail the k-th allocation from now on, during the next parse only */
 			xa_fail_at = xa_count + atol(tokp + 1); armed = 1; printf("armed"); break;
